@@ -1019,13 +1019,13 @@ class Length(object):
             if viewbox is None:
                 return self
             v = Viewbox(viewbox)
-            m = min(v.height, v.height)
+            m = min(v.width, v.height)
             return self.amount * m / 100.0
         if self.units == "vmax":
             if viewbox is None:
                 return self
             v = Viewbox(viewbox)
-            m = max(v.height, v.height)
+            m = max(v.width, v.height)
             return self.amount * m / 100.0
         try:
             return float(self)
